@@ -4,7 +4,7 @@ package main
 // scripted peer answers, and the transport.  The same description is read by the Coq model
 // (Interp/RunATPClient.v); see the grammar there.
 //
-//	(session (frag N) (wfail N|-1) (close 0|1)
+//	(session (frag N) (wfail N|-1) (close 0|1) [(wfrag N)]     ; wfrag: explore mode only (transport.go)
 //	         (calls (call RUN LANE SIGTO CLOSECH SIGFROM) ...)        ; in caller-index order
 //	         (peer ordered|any (pm RUN KIND) ...))
 //
@@ -50,6 +50,7 @@ type session struct {
 	// nodata: the malformed work-done messages of the script (kind baddone) are runtime messages WITHOUT a data field
 	// ({id, run_id}) instead of one with data of the wrong shape; the model reads both as BadPayload (it ignores the flag)
 	nodata bool
+	wfrag  int // > 0: the client's Writes reach the stream in chunks of this many bytes, a scheduler gate in between
 }
 
 func parseSession(n *sx.Node) (*session, error) {
@@ -70,6 +71,8 @@ func parseSession(n *sx.Node) (*session, error) {
 				s.calls = append(s.calls, call{run: c.List[1].Str, lane: int(c.List[2].Int()), sigTo: int(c.List[3].Int()),
 					closeCh: c.List[4].Int() == 1, sigFrom: c.List[5].Int() == 1})
 			}
+		case "wfrag":
+			s.wfrag = int(f.List[1].Int())
 		case "nodata":
 			s.nodata = f.List[1].Int() == 1
 		case "fault":
@@ -101,6 +104,9 @@ func (s *session) sx() *sx.Node {
 	}
 	if s.nodata {
 		n.Append(sx.L(sx.A("nodata"), sx.B(true)))
+	}
+	if s.wfrag > 0 {
+		n.Append(sx.L(sx.A("wfrag"), sx.I(int64(s.wfrag))))
 	}
 	return n
 }
@@ -231,6 +237,7 @@ type running struct {
 	nEmitted  int
 	lanes     int
 	wire      []string
+	garbled   string // first foreign message the peer decoded ("" = none)
 	lanesWG   sync.WaitGroup
 }
 
@@ -265,6 +272,7 @@ func startSession(s *session) (*running, error) {
 	if s.wfail >= 0 {
 		r.tr.writeOK = r.tr.writes + s.wfail
 	}
+	r.tr.wfrag = s.wfrag
 	r.tr.mu.Unlock()
 	sch.activate()
 	for _, c := range s.calls {
@@ -369,7 +377,38 @@ func (r *running) peerAccept() (string, bool) {
 		r.peerDone = true
 	}
 	r.wire = append(r.wire, kind+":"+run)
+	if r.garbled == "" {
+		known := kind == "clientdone"
+		for _, c := range r.s.calls {
+			if (kind == "workstart" || kind == "signal") && c.run == run {
+				known = true
+			}
+		}
+		if !known {
+			r.garbled = "the peer decoded a message the harness never had the client send: " + kind + " run " + strconv.Quote(run)
+		}
+	}
 	return kind + ":" + run, true
+}
+
+// wireGarbled: what the transport and the peer saw of the client -> server stream that the client cannot have meant: two
+// of its writers inside the transport's Write at once, a decoded message nobody sent, or - once nothing moves any more and
+// no Write is in progress - bytes left that do not decode as a runtime message.  "" = the stream is the sequence of the
+// messages sent.
+func (r *running) wireGarbled(final bool) string {
+	r.tr.mu.Lock()
+	ov, inflight := r.tr.overlap, r.tr.wInFlight
+	r.tr.mu.Unlock()
+	if ov != "" {
+		return "two writers of the client were inside the transport's Write at the same time (" + ov + "): their messages are interleaved in the client -> server stream"
+	}
+	if r.garbled != "" {
+		return r.garbled
+	}
+	if final && inflight == 0 && len(r.tr.pending()) > 0 && !r.canAccept() {
+		return "bytes of the client -> server stream do not decode as a runtime message although no Write is in progress"
+	}
+	return ""
 }
 
 func (r *running) canAccept() bool {
